@@ -85,6 +85,17 @@ def one(P, std, ci, cseed, mons=None):
 
 
 def check(payload):
+    if payload.get("mode") == "source":
+        r = parse_monitored(payload["text"], payload["std"], conserve=False, **payload.get("opts", {}))
+        vs = []
+        if r.error is None:
+            probs, n = wellformed(r.tree)
+            if not probs:
+                sp = stmt_order_problem(r.tree)
+                probs = [("walk-statement-order", sp)] if sp else []
+            if probs:
+                vs.append(viol(probs[0][0], probs[0][1]))
+        return {"violations": vs, "digests": [], "monitors": {"nodes_checked": 1}, "tally": {}}
     P = payload_program(payload)
     std = payload["std"]
     cseed = payload.get("comments_seed", 0)
@@ -109,6 +120,7 @@ def check(payload):
         Q = shrink_program(P, still)
         w, qsrc, _ = one(Q, std, ci, cseed)
         v["shrunk"] = {"source": qsrc, "detail": w["detail"] if w else None}
+        v["payload"] = dict(payload, program=Q.to_json())
         viols.append(v)
     return {"violations": viols, "digests": digs, "tally": {"stmt_kinds": P.kinds()}, "monitors": mons,
             "sample": {"std": std, "source": P.canonical()[:1200]}}
